@@ -204,8 +204,9 @@ fn parse_space_identifier(space_identifier: &str) -> Option<u32> {
 }
 
 /// Parse a packoffset annotation
-pub fn parse_packoffset(_: &[LexToken]) -> ParseResult<'_, PackOffset> {
-    unimplemented!("packoffset")
+pub fn parse_packoffset(input: &[LexToken]) -> ParseResult<'_, PackOffset> {
+    // packoffset is not supported: fail to parse instead of aborting
+    ParseErrorReason::wrong_token(input)
 }
 
 /// Parse a semantic
